@@ -113,10 +113,14 @@ class YAMLStringFormatter(StringFormatter):
 
     def write_start_quote(self, printer: Printer, edit: StringEdit):
         for sub_edit in edit.edit_distance.edits():
-            if isinstance(sub_edit, Match) and '\n' in sub_edit.from_node.object:
+            c = sub_edit.from_node.object
+            if isinstance(c, int):
+                # the elements of a `bytes` object are ints
+                c = chr(c)
+            if isinstance(sub_edit, Match) and '\n' in c:
                 self.has_newline = True
                 break
-            elif isinstance(sub_edit, Insert) and '\n' in sub_edit.from_node.object:
+            elif isinstance(sub_edit, Insert) and '\n' in c:
                 self.has_newline = True
                 break
         else:
@@ -135,7 +139,7 @@ class YAMLStringFormatter(StringFormatter):
 
     def print_StringNode(self, printer: Printer, node: 'StringNode'):
         s = node.object
-        if '\n' in s:
+        if isinstance(s, str) and '\n' in s:
             if printer.context().fore is None:
                 context = printer.color(Fore.CYAN)
             else:
